@@ -498,13 +498,34 @@ async def _e2e_ip(loop, peer, case):
                               addresses=["10.0.0.5"], port=case.get("port", 51826))
         d = IpDiscovery(w.controller, desc)
         result, exc = None, None
+        prior = None
+        if case.get("prior"):
+            # the alias has been used before on this controller: an earlier, honest pairing (another code, another exchange) stands under it
+            first = SetupPeer(dict(case, fault=["none"], k=case["k"] + 1, stranger=None))
+            w.acc.setup_handler = first.respond
+            with injected(first.a, first.lt_seed):
+                prior = await (await IpDiscovery(w.controller, desc).async_start_pairing("alias"))(first.code)
+            w.acc.setup_handler = peer.respond
         try:
             finish = await d.async_start_pairing("alias")
-            obj = await finish(peer.code)
-            result = obj.pairing_data
+            if case.get("retry") and case["retry"][0] == "wrong-code":
+                wrong = "%03d-%02d-%03d" % ((int(peer.code[:3]) + 1) % 1000, int(peer.code[4:6]), int(peer.code[7:]))
+                try:
+                    await finish(wrong)
+                    exc = RuntimeError("the mistyped code was accepted")
+                except Exception:  # noqa: BLE001
+                    pass
+                peer.expect_rejected = len(peer.attempts)
+                finish = await d.async_start_pairing("alias")          # the user tries again on the same discovery
+            if exc is None:
+                obj = await finish(peer.code)
+                result = obj.pairing_data
         except Exception as e:  # noqa: BLE001
             exc = e
-        extra = {"registered": w.controller.pairings.get("alias"), "obj": result, "expect": {"AccessoryIP": "10.0.0.5", "AccessoryIPs": ["10.0.0.5"], "AccessoryPort": case.get("port", 51826), "Connection": "IP"}}
+        reg = w.controller.pairings.get("alias")
+        if prior is not None and reg is prior and result is None:
+            reg = None           # the earlier pairing still stands under the alias: that is not a registration of the failed one
+        extra = {"registered": reg, "obj": result, "expect": {"AccessoryIP": "10.0.0.5", "AccessoryIPs": ["10.0.0.5"], "AccessoryPort": case.get("port", 51826), "Connection": "IP"}}
         try:
             await d.close()
         except Exception:  # noqa: BLE001
@@ -536,8 +557,18 @@ async def _e2e_coap(loop, peer, case):
         result, exc = None, None
         try:
             finish = await d.async_start_pairing("alias")
-            obj = await finish(peer.code)
-            result = obj.pairing_data
+            if case.get("retry") and case["retry"][0] == "wrong-code":
+                wrong = "%03d-%02d-%03d" % ((int(peer.code[:3]) + 1) % 1000, int(peer.code[4:6]), int(peer.code[7:]))
+                try:
+                    await finish(wrong)
+                    exc = RuntimeError("the mistyped code was accepted")
+                except Exception:  # noqa: BLE001
+                    pass
+                peer.expect_rejected = len(peer.attempts)
+                finish = await d.async_start_pairing("alias")          # the user tries again on the same discovery
+            if exc is None:
+                obj = await finish(peer.code)
+                result = obj.pairing_data
         except Exception as e:  # noqa: BLE001
             exc = e
         extra = {"registered": ctl.pairings.get("alias"), "obj": result, "expect": {"AccessoryIP": "fd00::1", "AccessoryPort": case.get("port", 5683), "Connection": "CoAP"}}
@@ -638,6 +669,10 @@ def run_e2e(case, R):
                 return
         if len(peer.attempts) < 2:
             R.cls("retry:no-second-exchange")
+        if result is None and transport in ("ip", "coap") and case["retry"][0] == "wrong-code":
+            R.fail("C03.honest-rejected", f"{what}: after a mistyped code the right one was tried on the same discovery against an honest accessory: {type(exc).__name__}: {exc}",
+                   exc=type(exc).__name__, stage="second-attempt")
+            return
         if result is None:
             R.cls("retry:failed")
             if extra["registered"] is not None:
@@ -680,6 +715,23 @@ def enum_retry(tier):
                 yield {"k": SEED * 611953 + i, "code": "%03d-%02d-%03d" % (i * 37 % 1000, i % 100, (i * 7) % 1000), "acc_id": "AA:BB:CC:DD:EE:FF",
                        "ios_id": "decc6fa3-de3e-41c9-adba-ef7409821bfc", "with_auth": bool(i % 2), "salt_zeros": 0, "fault": ["none"], "transport": "ble",
                        "att": att, "pieces": pieces, "retry": retry}
+
+
+def enum_second_attempts(tier):
+    """IP / CoAP: a mistyped code, then the right one on the same discovery object; IP: an alias that already names an earlier pairing."""
+    i = 0
+    for tr in ("ip", "coap"):
+        for rep in range(3):
+            i += 1
+            yield {"k": SEED * 86028121 + i, "code": "%03d-%02d-%03d" % (i * 41 % 1000, i % 100, (i * 3) % 1000), "acc_id": "AA:BB:CC:DD:EE:FF", "ios_id": "ios-second-%d" % i,
+                   "with_auth": bool(i % 2), "salt_zeros": 0, "fault": ["none"], "transport": tr, "retry": ["wrong-code"]}
+    for fault in (["none"], ["wrong-code"], ["m4-flip", 5], ["m6-flip", 9], ["m4-drop-proof", 0]):
+        i += 1
+        c = {"k": SEED * 86028121 + i, "code": "%03d-%02d-%03d" % (i * 41 % 1000, i % 100, (i * 3) % 1000), "acc_id": "AA:BB:CC:DD:EE:FF", "ios_id": "ios-second-%d" % i,
+             "with_auth": bool(i % 2), "salt_zeros": 0, "fault": fault, "transport": "ip", "prior": True}
+        if fault[0] == "wrong-code":
+            c["other_code"] = "999-99-999"
+        yield c
 
 
 def enum_endless(tier):
@@ -838,6 +890,8 @@ SPEC = Property(
         Layer("ble-restarted-exchanges", run_e2e, enumerate=enum_retry, exhaustive=True,
               space="BleDiscovery pairing where finish_pairing runs twice: the link drops when M1/M3/M5 arrives (the library retries), or a mistyped code is followed by the right one; "
                     "the accessory starts a fresh exchange (new salt, new B) for every M1", min_nontrivial=10),
+        Layer("second-attempts", run_e2e, enumerate=enum_second_attempts, exhaustive=True,
+              space="IP / CoAP: mistyped code, then the right one on the same discovery object (3 each); IP: 5 exchanges (honest and breaking) under an alias that already names an earlier pairing", min_nontrivial=5),
         Layer("ble-unfinished-fragments", run_e2e, enumerate=enum_endless, exhaustive=True,
               space="BLE pair-setup whose fragmented reply is never completed (empty FragmentData for ever) x 3 piece sizes: it must end with an error"),
         Layer("end-to-end-generated", run_e2e, strategy=e2e_cases, n={"quick": 300, "thorough": 6000}, min_nontrivial=100),
